@@ -138,6 +138,11 @@ def evaluate(case):
 def probe_html_only(ch):
     """HTML-only pseudo-classes on an XML (not XHTML) form document select nothing."""
     recipe, _ = htmldoc.gen_html_doc(ch, kinds=('lxml-xml', 'xml-api'), depth=2, iframes=False)
+    if ch.p(0.5):
+        # an island of XHTML-namespace elements inside a document whose root is not XHTML (e.g. Atom content)
+        island = trees.E('div', {}, htmldoc.block(ch, {'iframes': False}, 2, trees.NS_XHTML), ns=trees.NS_XHTML)
+        recipe = {'kind': recipe['kind'], 'detach': None,
+                  'top': [trees.E('feed', {}, [trees.E('entry', {}, [island]), trees.E('input', {'checked': '', 'type': 'checkbox'})])]}
     twin = dict(recipe, kind='html.parser' if recipe['kind'] == 'lxml-xml' else 'html-api')
     return {'probe': recipe, 'twin': twin}
 
@@ -161,6 +166,18 @@ def evaluate_probe(case):
             if got:
                 fails.append(('html-only-matches-in-xml', f'{text!r} selects {len(got)} element(s) of the XML document '
                               f'{str(doc.target)[:300]!r}'))
+                continue
+            # the same question asked with an element as the call target
+            for el in doc.all_elements()[:40]:
+                try:
+                    hit = sv.select(text, el) or ([el] if sv.match(text, el) else []) or ([el] if sv.closest(text, el) else [])
+                except Exception as e:  # noqa: BLE001
+                    fails.append((f'raises-{type(e).__name__}', f'{text!r} on <{el.name}>: {e!r:.200}'))
+                    break
+                if hit:
+                    fails.append(('html-only-matches-in-xml-scoped-call', f'{text!r} called on <{el.name}> (namespace '
+                                  f'{el.namespace!r}) matches in the XML document {str(doc.target)[:300]!r}'))
+                    break
     return fails, twin_hits
 
 
